@@ -1,6 +1,7 @@
 package eng
 
 import (
+	"github.com/Oudwins/zog/conf"
 	"fmt"
 	"reflect"
 	"sort"
@@ -166,6 +167,59 @@ func (o *Observed) canon(n *Node) string {
 var ctxProbe = []string{"k1", "k2", "k3", "k4", "k5", "k6", "k7", "k8"}
 
 // NewCase generates and runs one case.
+// installGlobal overrides conf.Coercers for one kind (String, Bool or Time) with a constant or
+// failing coercer, marks the nodes it applies to (the model is given the same coercer for exactly
+// those) and returns the function that restores the configuration.
+func (g *Gen) installGlobal(root *Node) func() {
+	kind := Pick(g.R, []string{KString, KBool, KTime, KTime})
+	present := map[string]bool{}
+	var scan func(x *Node)
+	scan = func(x *Node) {
+		present[x.Kind] = true
+		for _, f := range x.Fields {
+			scan(f.Node)
+		}
+		if x.Elem != nil {
+			scan(x.Elem)
+		}
+	}
+	scan(root)
+	for _, k := range []string{KTime, KBool, KString} { // prefer a kind the schema contains
+		if present[k] && !present[kind] {
+			kind = k
+		}
+	}
+	ov := &Node{Kind: kind, Coercer: "err"}
+	if g.R.P(70) {
+		l := g.leaf(kind)
+		ov.Coercer, ov.CoerceTo = "const", &l
+	}
+	var mark func(x *Node)
+	mark = func(x *Node) {
+		if x.Kind == kind && x.Coercer == "" && !(kind == KTime && x.Layout != "") {
+			x.GlobalCo, x.Coercer, x.CoerceTo = true, ov.Coercer, ov.CoerceTo
+		}
+		for _, f := range x.Fields {
+			mark(f.Node)
+		}
+		if x.Elem != nil {
+			mark(x.Elem)
+		}
+	}
+	mark(root)
+	saved := conf.Coercers
+	f := customCoercer(ov)
+	switch kind {
+	case KString:
+		conf.Coercers.String = f
+	case KBool:
+		conf.Coercers.Bool = f
+	case KTime:
+		conf.Coercers.Time = f
+	}
+	return func() { conf.Coercers = saved }
+}
+
 // acceptable: does the implementation report no issues for one of a few generated inputs?
 func (g *Gen) acceptable(n *Node, validate bool) bool {
 	t := TypeOf(n)
@@ -199,6 +253,11 @@ func NewCase(g *Gen, id int, forceValidate *bool) *Case {
 	}
 	c := &Case{ID: id, Validate: validate, Schema: n, Collide: hasIssuePath(n), Shape: Shape(n)}
 	rec := &Recorder{CtxKeys: ctxProbe}
+	if g.P.PGlobal > 0 && g.R.P(g.P.PGlobal) {
+		// a global coercer override: every schema of that kind built without its own coercer / layout uses it
+		defer g.installGlobal(n)()
+		c.Shape += ":global"
+	}
 	schema := Build(rec, n, validate)
 	t := TypeOf(n)
 
